@@ -32,6 +32,9 @@ pub struct Case {
     /// user-defined roller around the real one: scripted failures per roller call (file left in place)
     #[serde(default)]
     pub flaky: Vec<bool>,
+    /// encoder that fails after writing this many bytes of the record, per append call (None = healthy)
+    #[serde(default)]
+    pub enc_fail: Vec<Option<usize>>,
 }
 
 fn text_of(len: usize, charset: u8) -> String {
@@ -75,8 +78,9 @@ pub fn strategy() -> impl Strategy<Value = Case> {
         0u8..3,
         prop::collection::vec(op, 1..=25),
         prop_oneof![3 => Just(vec![]), 1 => prop::collection::vec(prop::bool::weighted(0.4), 1..=6)],
+        prop_oneof![4 => Just(vec![]), 1 => prop::collection::vec(prop::option::weighted(0.3, prop_oneof![Just(0usize), 1usize..12, 1000usize..1100]), 1..=25)],
     )
-        .prop_map(|(limit, append_mode, pre, count, chunks, charset, ops, flaky)| Case { limit, append_mode, pre, count, chunks, charset, ops, flaky })
+        .prop_map(|(limit, append_mode, pre, count, chunks, charset, ops, flaky, enc_fail)| Case { limit, append_mode, pre, count, chunks, charset, ops, flaky, enc_fail })
 }
 
 pub fn check(tmp: &Path, case: &Case, obs: &mut Obs) -> CaseResult {
@@ -101,10 +105,22 @@ fn check_in(dir: &Path, case: &Case, obs: &mut Obs) -> CaseResult {
     let log: Arc<Mutex<Vec<Consultation>>> = Arc::new(Mutex::new(vec![]));
     let roller = RollSpec::Fixed { base: 0, count: case.count, pattern: "arch.{}.log".into() };
     let failures = Arc::new(std::sync::atomic::AtomicUsize::new(0));
+    let appends_done = Arc::new(std::sync::atomic::AtomicUsize::new(0));
     let mut roller_calls = 0usize; // calls seen by the current appender's roller
     let build = |model_active: &mut Option<Vec<u8>>| -> Result<log4rs::append::rolling_file::RollingFileAppender, Failure> {
         let policy = Box::new(ObservingPolicy { inner: make_flaky_policy(dir, &TrigSpec::Size(n), &roller, &case.flaky, &failures).unwrap(), log: log.clone() });
-        let a = build_appender(&path, case.append_mode, &case.chunks, policy).map_err(|e| Failure { sig: "C06:build".into(), msg: e.to_string() })?;
+        let a = if case.enc_fail.is_empty() {
+            build_appender(&path, case.append_mode, &case.chunks, policy)
+        } else {
+            // one encoder call per append over the appender's lifetime; restarts continue the script
+            let done = appends_done.load(std::sync::atomic::Ordering::SeqCst);
+            let rest: Vec<Option<usize>> = case.enc_fail.iter().skip(done).cloned().collect();
+            log4rs::append::rolling_file::RollingFileAppender::builder()
+                .append(case.append_mode)
+                .encoder(Box::new(FailingEncoder { fail: rest, calls: std::sync::atomic::AtomicUsize::new(0) }))
+                .build(&path, policy)
+        }
+        .map_err(|e| Failure { sig: "C06:build".into(), msg: e.to_string() })?;
         // the appender opens the file immediately; truncate mode discards pre-existing content at open
         if !case.append_mode || model_active.is_none() {
             if !case.append_mode {
@@ -121,6 +137,7 @@ fn check_in(dir: &Path, case: &Case, obs: &mut Obs) -> CaseResult {
     let mut deltas: Vec<i64> = vec![];
     let mut rotations = 0;
     let mut flaky_hit = false;
+    let mut enc_failed = false;
     for (oi, op) in case.ops.iter().enumerate() {
         let size_now = model_active.as_ref().map(|c| c.len()).unwrap_or(0) as i64;
         let len = match op {
@@ -146,8 +163,28 @@ fn check_in(dir: &Path, case: &Case, obs: &mut Obs) -> CaseResult {
         };
         let msg = text_of(len, case.charset);
         log.lock().unwrap().clear();
+        let call = appends_done.fetch_add(1, std::sync::atomic::Ordering::SeqCst);
         let res = catch(|| append_msg(&app, &msg));
         obs.sub_evals += 1;
+        if let Some(k) = case.enc_fail.get(call).copied().flatten() {
+            // the encoder wrote a prefix and failed: the append reports it, the policy is not consulted, and the
+            // prefix belongs to the file from now on (it reaches the disk with the next flush at the latest)
+            enc_failed = true;
+            let mut k = k.min(msg.len());
+            while !msg.is_char_boundary(k) {
+                k -= 1;
+            }
+            match res {
+                Err(p) => return fail("C06:panic", format!("op {}: append panicked: {}", oi, p)),
+                Ok(Ok(())) => return fail("C06:error-swallowed", format!("op {}: the encoder failed but the append reported success", oi)),
+                Ok(Err(_)) => {}
+            }
+            ensure!(log.lock().unwrap().is_empty(), "C06:consultations", "op {}: the policy was consulted although encoding failed", oi);
+            let mut active = model_active.take().unwrap_or_default();
+            active.extend_from_slice(&msg.as_bytes()[..k]);
+            model_active = Some(active);
+            continue;
+        }
         let mut active = model_active.take().unwrap_or_default();
         active.extend_from_slice(msg.as_bytes());
         let true_size = active.len() as u64;
@@ -204,13 +241,14 @@ fn check_in(dir: &Path, case: &Case, obs: &mut Obs) -> CaseResult {
     }
     let _ = newest_archive;
     let _ = snap(dir);
-    obs.nontrivial = near_limit || flaky_hit || (case.pre.is_some() && case.append_mode && pre_size > 0) || case.charset % 3 != 0;
+    obs.nontrivial = near_limit || flaky_hit || enc_failed || (case.pre.is_some() && case.append_mode && pre_size > 0) || case.charset % 3 != 0;
     obs.class_if(near_limit, "size-within-1-of-limit");
     obs.class_if(case.pre.is_some() && case.append_mode && pre_size > 0, "pre-existing-content-append-mode");
     obs.class_if(case.pre.is_some() && !case.append_mode, "pre-existing-content-truncate-mode");
     obs.class_if(case.charset % 3 != 0, "multi-byte-payload");
     obs.class_if(case.chunks.is_some(), "multi-chunk-encoder");
     obs.class_if(flaky_hit, "scripted-roller-failure");
+    obs.class_if(enc_failed, "encoder-failed-after-partial-write");
     obs.class_if(case.ops.iter().any(|o| matches!(o, Op::Restart)), "restart");
     obs.class(format!("rotations={}", rotations.min(5)));
     for d in deltas {
